@@ -3,6 +3,7 @@
 package ui
 
 import (
+	"reflect"
 	"encoding/json"
 	"fmt"
 	"io"
@@ -1196,7 +1197,7 @@ func TestVerifConfigProbe(t *testing.T) {
 	c := config.Parsed.Style.Colors
 	out.Emit(verifkit.M{"ev": "start", "colours": [][]int{split(c.Primary), split(c.Error), split(c.Highlight), split(c.Code)},
 		"hook": config.Parsed.Media.Hook, "context": config.Parsed.Network.Context, "cache": config.Parsed.Network.CacheSize,
-		"timeout_ms": config.Parsed.Network.Timeout.Milliseconds()})
+		"timeout_ms": verifTimeoutMs(config.Parsed.Network.Timeout)})
 	sim := verifsim.Get()
 	defer sim.Cleanup()
 	w := verifBuildWorld(sim)
@@ -1626,4 +1627,33 @@ func TestVerifConc(t *testing.T) {
 			out.Emit(verifkit.M{"ev": "burst", "sid": sid, "keys": keys, "frames": frames, "returned": atomic.LoadInt32(&returned), "resizes": resizes})
 		}
 	}
+}
+
+/* the timeout the fetcher will work with, in milliseconds, whatever type the configuration keeps it in
+   (a duration, or a number of seconds); something that is no number counts as negative */
+func verifTimeoutMs(timeout any) int64 {
+	v := reflect.ValueOf(timeout)
+	clamp := func(ms float64) int64 {
+		switch {
+		case ms != ms:
+			return -1
+		case ms > 4e18:
+			return 4000000000000000000
+		case ms < -4e18:
+			return -4000000000000000000
+		}
+		return int64(ms)
+	}
+	switch v.Kind() {
+	case reflect.Int, reflect.Int64, reflect.Int32:
+		if _, isDuration := timeout.(time.Duration); isDuration {
+			return v.Int() / int64(time.Millisecond)
+		}
+		return clamp(float64(v.Int()) * 1000)
+	case reflect.Uint, reflect.Uint64, reflect.Uint32:
+		return clamp(float64(v.Uint()) * 1000)
+	case reflect.Float64, reflect.Float32:
+		return clamp(v.Float() * 1000)
+	}
+	return -1
 }
